@@ -33,9 +33,12 @@ def find_value_(
         scheduler: abc.SchedulerBase | None = None,
     ) -> abc.DisposableBase:
         index = 0
+        done = False
 
         def on_next(x: _T) -> None:
-            nonlocal index
+            nonlocal index, done
+            if done:
+                return
             should_run = False
             try:
                 should_run = predicate(x, index, source)
@@ -44,12 +47,15 @@ def find_value_(
                 return
 
             if should_run:
+                done = True
                 observer.on_next(index if yield_index else x)
                 observer.on_completed()
             else:
                 index += 1
 
         def on_completed():
+            if done:
+                return
             observer.on_next(-1 if yield_index else None)
             observer.on_completed()
 
